@@ -179,3 +179,122 @@ Proof. vm_compute. reflexivity. Qed.
 Lemma repaired_modified :
   run variant_repaired sentinel_env spec witness_pok witness_sok 6 req_modified = Err EInvalidValue.
 Proof. vm_compute. reflexivity. Qed.
+
+(* ---- the audited clauses are exactly leaf_extra and marking_match ----
+   the generic knot with both clauses trivial IS valid_kind / valid_obj *)
+Section Trivial.
+  Variable sw : world.
+  Variable pok : ver -> ustring -> bool.
+  Notation le0 := (fun (_ : pkind) (_ : jvalue) => true).
+  Notation mm0 := (fun (_ : ustring -> jvalue -> bool) (_ : ustring) (_ : jvalue) => true).
+
+  Lemma bool_eq_of_iff (a b : bool) : (a = true -> b = true) -> (b = true -> a = true) -> a = b.
+  Proof.
+    destruct a, b; intros H1 H2; try reflexivity; [symmetry; apply H1; reflexivity | apply H2; reflexivity].
+  Qed.
+
+  Lemma valid_g_trivial n :
+    (forall k j, valid_kind_g sw pok le0 mm0 n k j = valid_kind sw pok n k j) /\
+    (forall c j, valid_obj_g sw pok le0 mm0 n c j = valid_obj sw pok n c j).
+  Proof.
+    induction n.
+    - split; reflexivity.
+    - destruct IHn as [IHk IHo]. split.
+      + intros k j.
+        change (true && valid_kind_body sw (valid_kind_g sw pok le0 mm0 n) (valid_obj_g sw pok le0 mm0 n) k j
+                = valid_kind_body sw (valid_kind sw pok n) (valid_obj sw pok n) k j).
+        rewrite andb_true_l.
+        apply bool_eq_of_iff; apply valid_kind_body_mono; intros k0 j0 H0.
+        * rewrite <- IHk. exact H0.
+        * rewrite <- IHo. exact H0.
+        * rewrite IHk. exact H0.
+        * rewrite IHo. exact H0.
+      + intros c j.
+        change (valid_obj_body sw (valid_kind_g sw pok le0 mm0 n) (jconstr pok (S n)) c j && true
+                = valid_obj_body sw (valid_kind sw pok n) (jconstr pok (S n)) c j).
+        rewrite andb_true_r.
+        apply bool_eq_of_iff; apply valid_obj_body_mono; try (intros c0 m0 k0 H0; exact H0); intros k0 j0 H0.
+        * rewrite <- IHk. exact H0.
+        * rewrite IHk. exact H0.
+  Qed.
+End Trivial.
+
+(* ---- the binary clause is sound for the strict decoder (vr_b64_strict = true) ---- *)
+Lemma b64char_not_pad c : is_b64char c = true -> (c =? 61)%N = false.
+Proof.
+  intros H. destruct (c =? 61)%N eqn:E; auto. apply N.eqb_eq in E. subst c. vm_compute in H. discriminate.
+Qed.
+
+Lemma b64_data_len_split s :
+  exists data : ustring, s = (data ++ snd (b64_data_len s))%list /\ List.length data = fst (b64_data_len s) /\
+               forallb is_b64char data = true.
+Proof.
+  induction s as [|c r IH].
+  - exists []. simpl. auto.
+  - simpl. destruct (is_b64char c) eqn:E.
+    + destruct IH as (d & H1 & H2 & H3). exists (c :: d). simpl. rewrite E, H3, H2. repeat split; auto.
+      f_equal. exact H1.
+    + exists []. simpl. auto.
+Qed.
+
+Lemma forallb_rev {A} (f : A -> bool) (l : list A) : forallb f (rev l) = forallb f l.
+Proof.
+  induction l as [|x l IH]; simpl; auto. rewrite forallb_app. simpl. rewrite IH, andb_true_r. apply andb_comm.
+Qed.
+
+Lemma strip_pad_data d : forallb is_b64char d = true -> strip_pad (rev d) = rev d.
+Proof.
+  intros H. rewrite <- forallb_rev in H. destruct (rev d) as [|c r]; auto.
+  simpl in H. apply andb_true_iff in H. destruct H as [Hc _]. simpl. rewrite (b64char_not_pad _ Hc). reflexivity.
+Qed.
+
+Lemma b64_strict_sound s : b64_strict s = true -> strict_base64 s = true.
+Proof.
+  unfold b64_strict, strict_base64. destruct (b64_data_len_split s) as (d & Hs & Hl & Hd).
+  destruct (b64_data_len s) as [n rest]. cbn [fst snd] in *. intros H.
+  destruct (Nat.modulo n 4) as [|[|[|[|m]]]] eqn:Em.
+  - destruct rest; try discriminate. rewrite app_nil_r in Hs. subst s. rewrite Hl, Em. cbn [Nat.eqb andb].
+    rewrite strip_pad_data; auto. rewrite forallb_rev. exact Hd.
+  - destruct rest as [|c1 [|c2 [|c3 r]]]; discriminate.
+  - destruct rest as [|c1 [|c2 [|c3 r]]]; try discriminate.
+    apply andb_true_iff in H. destruct H as [H1 H2]. apply N.eqb_eq in H1. apply N.eqb_eq in H2. subst c1 c2 s.
+    rewrite app_length, Hl. cbn [List.length].
+    rewrite (Nat.add_mod n 2 4) by discriminate. rewrite Em. cbn [Nat.modulo Nat.eqb andb Nat.divmod fst snd Nat.sub Nat.add].
+    rewrite rev_app_distr. cbn [rev app]. unfold strip_pad. rewrite !N.eqb_refl.
+    replace (Nat.eqb ((2 + 2 mod 4) mod 4) 0) with true by reflexivity. cbn [andb].
+    rewrite forallb_rev. exact Hd.
+  - destruct rest as [|c1 [|c2 r]]; try discriminate.
+    apply N.eqb_eq in H. subst c1 s.
+    rewrite app_length, Hl. cbn [List.length].
+    rewrite (Nat.add_mod n 1 4) by discriminate. rewrite Em.
+    replace (Nat.eqb ((3 + 1 mod 4) mod 4) 0) with true by reflexivity. cbn [andb].
+    rewrite rev_app_distr. cbn [rev app]. unfold strip_pad. rewrite N.eqb_refl.
+    destruct (rev d) as [|c2 r2] eqn:Er; [reflexivity|].
+    assert (Hc : is_b64char c2 = true).
+    { rewrite <- forallb_rev, Er in Hd. simpl in Hd. apply andb_true_iff in Hd. tauto. }
+    rewrite (b64char_not_pad _ Hc). rewrite <- Er, forallb_rev. exact Hd.
+  - destruct rest as [|c1 [|c2 [|c3 r]]]; discriminate.
+Qed.
+
+Section BinaryClause.
+  Variable vr : variant.
+  Variables w sp : world.
+  Variable pok : ver -> ustring -> bool.
+  Variable rc : ustring -> bool -> bool -> list (ustring * jvalue) -> result pval.
+  Variable rp : bool -> bool -> list (ustring * jvalue) -> result pval.
+  Variable ro : ver -> list (ustring * ustring) -> bool -> list (ustring * jvalue) -> result pval.
+
+  (* BinaryProperty.clean with the strict decoder only lets RFC 4648 text through: the binary clause of the audited
+     validator holds of whatever it returns (any mode) *)
+  Lemma binary_clause_sound_pf allow interop v pv hc n :
+    vr_b64_strict vr = true ->
+    clean_kind vr w rc rp ro KBinary allow interop v = Ok (pv, hc) ->
+    hc = false /\ valid_kind_x sp pok (S n) KBinary (encode false pv) = true.
+  Proof.
+    intros Hs H. simpl in H. destruct v; try discriminate. rewrite Hs in H.
+    destruct (all_ascii s && b64_strict s) eqn:E; try discriminate. inversion H; subst. split; auto.
+    apply andb_true_iff in E. destruct E as [_ E].
+    change (leaf_extra KBinary (JStr s) && valid_kind_body sp (valid_kind_x sp pok n) (valid_obj_x sp pok n) KBinary (JStr s) = true).
+    simpl. rewrite (b64_strict_sound _ E). reflexivity.
+  Qed.
+End BinaryClause.
